@@ -345,6 +345,9 @@ enum Rec {
 struct Recorder {
     ctx: Arc<SimCtx>,
     recs: Vec<Rec>,
+    /// Read object data with `read_to_end` only (for the very large cells: a
+    /// tape entry per tiny read would make the tape as long as the object).
+    bulk: bool,
 }
 
 /// A processor that is not interested in (all of) the object data: it reads
@@ -406,7 +409,7 @@ impl Recorder {
     /// Reads object data in tape-chosen read sizes.
     fn slurp(&self, data: &mut ObjectReader) -> Result<Vec<u8>, ProcessError> {
         let mut out = Vec::new();
-        if self.ctx.chance(1, 2) {
+        if self.bulk || self.ctx.chance(1, 2) {
             data.read_to_end(&mut out)?;
             return Ok(out);
         }
@@ -595,7 +598,7 @@ impl C09 {
         if !matches!(doc, Doc::Notification(_)) {
             let rcfg = { let mut t = ctx.tape.lock().unwrap(); gen_read_cfg(&mut t, true) };
             let mut r = reader(ctx, &bytes, rcfg);
-            let mut rec = Recorder { ctx: ctx.clone(), recs: Vec::new() };
+            let mut rec = Recorder { ctx: ctx.clone(), recs: Vec::new(), bulk: false };
             let res = guarded("process", || {
                 Ok(match doc {
                     Doc::Snapshot(_) => ProcessSnapshot::process(&mut rec, &mut r).map_err(|e| e.to_string()),
@@ -1252,7 +1255,7 @@ impl C09 {
             let mut r = reader(ctx, &bytes, rcfg);
             let res = guarded("parse-foreign", || {
                 Ok(if streaming {
-                    let mut rec = Recorder { ctx: ctx.clone(), recs: Vec::new() };
+                    let mut rec = Recorder { ctx: ctx.clone(), recs: Vec::new(), bulk: false };
                     let res = match doc {
                         Doc::Snapshot(_) => ProcessSnapshot::process(&mut rec, &mut r).map_err(|e| e.to_string()),
                         _ => ProcessDelta::process(&mut rec, &mut r).map_err(|e| e.to_string()),
@@ -1610,7 +1613,7 @@ impl C09 {
         let streaming = !matches!(doc, Doc::Notification(_)) && ctx.chance(1, 2);
         let res = guarded("parse-hostile", || {
             Ok(if streaming {
-                let mut rec = Recorder { ctx: ctx.clone(), recs: Vec::new() };
+                let mut rec = Recorder { ctx: ctx.clone(), recs: Vec::new(), bulk: false };
                 match doc {
                     Doc::Snapshot(_) => ProcessSnapshot::process(&mut rec, &mut r).map(|_| "processed".to_string()).map_err(|e| e.to_string()),
                     _ => ProcessDelta::process(&mut rec, &mut r).map(|_| "processed".to_string()).map_err(|e| e.to_string()),
@@ -1705,7 +1708,7 @@ impl C09 {
         let chunk_max = 1usize << 16;
         let rcfg = ReadCfg { mode: 0, chunk_max, eintr: 0, fail_at: None, bound: if which == 1 { Some(l0 + MAX_FILE_SIZE + 2 * 65536) } else { None } };
         let mut r = reader(ctx, &bytes, rcfg);
-        let mut rec = Recorder { ctx: ctx.clone(), recs: Vec::new() };
+        let mut rec = Recorder { ctx: ctx.clone(), recs: Vec::new(), bulk: true };
         let res = guarded("process-large", || {
             Ok(match doc {
                 Doc::Snapshot(_) => ProcessSnapshot::process(&mut rec, &mut r).map_err(|e| e.to_string()),
